@@ -41,14 +41,14 @@ type op struct {
 }
 
 type call struct {
-	G, I   int
-	Kind   int
-	Tick0  int
-	Tick1  int
-	T0, T1 time.Duration
-	Done   bool
-	Err    error
-	Bound  time.Duration
+	G, I           int
+	Kind           int
+	Tick0          int
+	Tick1          int
+	T0, T1         time.Duration
+	Done           bool
+	Err            error
+	Bound          time.Duration
 	Dials0, Dials1 int
 	State0, State1 hsms.ConnState
 }
@@ -59,48 +59,50 @@ type peerFault struct {
 }
 
 type scenario struct {
-	Active   bool
-	Equip    bool
-	CloseTO  time.Duration
+	Active         bool
+	Equip          bool
+	CloseTO        time.Duration
 	T3, T5, T6, T7 time.Duration
-	Linktest time.Duration
-	ConnTO   time.Duration
-	Scripts  [][]op
-	Faults   []peerFault
-	DialOut  []int // 0 ok, 1 refused, 2 blackhole, per attempt
-	Handler  time.Duration
-	PeerLag  time.Duration // passive: delay between the library listening and the peer connecting
+	Linktest       time.Duration
+	ConnTO         time.Duration
+	Scripts        [][]op
+	Faults         []peerFault
+	DialOut        []int // 0 ok, 1 refused, 2 blackhole, per attempt
+	Handler        time.Duration
+	PeerLag        time.Duration // passive: delay between the library listening and the peer connecting
 }
 
 type harness struct {
-	w  *core.World
-	sc scenario
-	C  hsms.Connection
-	N  *simnet.Net
+	w     *core.World
+	sc    scenario
+	C     hsms.Connection
+	N     *simnet.Net
 	secs1 bool
 	// transport-specific peer plumbing
 	links       []*simnet.Link // every connection a peer end was attached to
 	connectPeer func()         // passive library end: a peer dials the listener now
 	sendBound   time.Duration  // extra time a send may spend on the line (write timeout / E4 retries)
 
-	calls   []*call
-	tick    int
-	running int
-	maxCloseTO time.Duration
-	scriptsDone int
-	phase   int // 0 scripts, 1 final sequence, 2 census, 3 done
-	finalErr string
-	faultsOff bool
-	racers    int
-	racing    int // extra Close calls (racers) in progress
-	usedListeners int
-	seenListeners int
-	seenAt        time.Duration
-	censusAt time.Duration
-	writeTO time.Duration
+	calls                        []*call
+	tick                         int
+	running                      int
+	maxCloseTO                   time.Duration
+	scriptsDone                  int
+	phase                        int // 0 scripts, 1 final sequence, 2 census, 3 done
+	finalErr                     string
+	faultsOff                    bool
+	racers                       int
+	lastRefusedAt                time.Duration
+	racing                       int // extra Close calls (racers) in progress
+	usedListeners                int
+	seenListeners                int
+	seenAt                       time.Duration
+	censusAt                     time.Duration
+	writeTO                      time.Duration
+	noWriteBound                 bool
 	dialsAtClose, listensAtClose int
-	finalCloseRet time.Duration
-	stop bool
+	finalCloseRet                time.Duration
+	stop                         bool
 }
 
 func genScenario(t *core.Tape, faulty bool) scenario {
@@ -136,7 +138,7 @@ func genScenario(t *core.Tape, faulty bool) scenario {
 			sc.Faults = append(sc.Faults, peerFault{At: time.Duration(t.Choose("scn", 150)) * 10 * time.Millisecond, Kind: t.Choose("scn", 4)})
 		}
 		for i := 0; i < 10; i++ {
-			sc.DialOut = append(sc.DialOut, t.Weighted("scn", 5, 2, 2))
+			sc.DialOut = append(sc.DialOut, t.Weighted("scn", 4, 4, 2))
 		}
 	}
 	sc.Handler = []time.Duration{0, 10 * time.Millisecond, 50 * time.Millisecond}[t.Choose("scn", 3)]
@@ -154,6 +156,15 @@ func Build(config string) core.BuildFunc {
 		sc := h.sc
 		h.maxCloseTO = sc.CloseTO
 		h.writeTO = 400 * time.Millisecond
+		if config == "faulty" && len(h.sc.Faults) > 0 && w.T.Choose("scn", 3) == 0 {
+			h.sc.Faults[0].Kind = 3 // at least one closed peer window in such a run
+			h.sc.Linktest = 0       // (a linktest probe caught in the closed window would make Close skip its courtesy Separate)
+			// the documented way to disable the write bound: a send into a closed peer window then blocks
+			// until the connection goes — but Close itself must stay bounded (its courtesy Separate has
+			// a bound of its own)
+			h.writeTO = 0
+			h.noWriteBound = true
+		}
 		wto := h.writeTO
 		if config == "secs1" {
 			h.setupSECS1()
@@ -167,6 +178,35 @@ func Build(config string) core.BuildFunc {
 			switch sc.DialOut[n-1] {
 			case 1:
 				w.Fault("dial-refused")
+				// a Close aimed at the instant the reconnect loop wakes up for its next attempt (the gap
+				// doubles, up to T5): the loop's fence checks and the Close's fence are then in flight together
+				if h.lastRefusedAt > 0 && h.racers < 6 {
+					gap := 2 * (w.Now() - h.lastRefusedAt)
+					if gap > sc.T5 {
+						gap = sc.T5
+					}
+					if gap > 0 && gap <= sc.T5 {
+						h.racers++
+						w.After(gap, "close-at-reconnect-wakeup", func() {
+							if h.faultsOff || h.stop {
+								return
+							}
+							w.Probe("close_at_reconnect_wakeup")
+							h.racing++
+							w.Go("racer", func() {
+								defer func() { h.racing-- }()
+								if h.faultsOff || h.stop {
+									return
+								}
+								c := h.begin(98, len(h.calls), oClose, 0)
+								err := h.C.Close()
+								c.Bound = h.closeBound()
+								h.end(c, err)
+							})
+						})
+					}
+				}
+				h.lastRefusedAt = w.Now()
 
 				return simnet.DialOutcome{Kind: 1}
 			case 2:
@@ -175,6 +215,7 @@ func Build(config string) core.BuildFunc {
 				return simnet.DialOutcome{Kind: 2}
 			}
 
+			h.lastRefusedAt = 0
 			lat := time.Duration(w.T.Choose("net", 20)) * time.Millisecond
 			if config != "clean" && w.T.Choose("net", 3) == 0 && h.racers < 2 {
 				// a Close crossing a dial that has just completed: the dialing goroutine is held with the
@@ -223,7 +264,32 @@ func Build(config string) core.BuildFunc {
 				case 3:
 					w.Fault("sndfull")
 					l.SetCap(48)
-					l.Stall(false, 0)
+					if h.noWriteBound {
+						l.SetCap(8) // smaller than any frame: the very next write blocks
+						// nothing bounds a write: the window opens again by itself (a send blocked on it is
+						// legitimately stuck until then)
+						l.Stall(false, time.Duration(1+w.T.Choose("net", 3))*time.Second)
+						// ... and a Close arrives while it is shut: its courtesy Separate must not wait for it
+						w.After(time.Duration(2+w.T.Choose("net", 8)*5)*time.Millisecond, "close-into-closed-window", func() {
+							if h.faultsOff || h.stop {
+								return
+							}
+							h.racing++
+							w.Go("racer", func() {
+								defer func() { h.racing-- }()
+								if h.faultsOff || h.stop {
+									return
+								}
+								c := h.begin(98, len(h.calls), oClose, 0)
+								w.Probe(fmt.Sprintf("close_into_closed_window_from_%v", h.C.State()))
+								err := h.C.Close()
+								c.Bound = h.closeBound()
+								h.end(c, err)
+							})
+						})
+					} else {
+						l.Stall(false, 0)
+					}
 				}
 			})
 		}
@@ -363,6 +429,9 @@ func (h *harness) doOp(g, i int, o op) {
 	case oSendW:
 		ctx, cancel := context.WithTimeout(context.Background(), o.Arg)
 		c := h.begin(g, i, o.Kind, o.Arg+h.sc.T3+h.sendBound+10*time.Millisecond)
+		if h.noWriteBound {
+			c.Bound = 0 // no bound while the peer's window may be closed
+		}
 		_, err := C.SendDataMessage(ctx, 1, 1, true, secs2.A(fmt.Sprintf("m%d-%d", g, i)))
 		cancel()
 		h.end(c, err)
@@ -418,12 +487,13 @@ func (h *harness) script(g int, ops []op) {
 }
 
 // finale: with a healthy peer from now on, every history ends with
-//   Open (already open, or a fresh open) -> Selected + round trip      [whatever happened before,
-//        an open connection must still be trying and must get there: no lifecycle call may have
-//        killed the reconnect machinery as a side effect]
-//   Open again -> already-open error, no side effects
-//   Close -> Open -> Selected + round trip                              [reopen behaves like new]
-//   Close -> Close (idempotent) -> census.
+//
+//	Open (already open, or a fresh open) -> Selected + round trip      [whatever happened before,
+//	     an open connection must still be trying and must get there: no lifecycle call may have
+//	     killed the reconnect machinery as a side effect]
+//	Open again -> already-open error, no side effects
+//	Close -> Open -> Selected + round trip                              [reopen behaves like new]
+//	Close -> Close (idempotent) -> census.
 func (h *harness) finale() {
 	w, C := h.w, h.C
 	h.phase = 1
